@@ -106,6 +106,32 @@ fn check_clamps(d: Difficulty, s: &[Setter]) {
             assert!(value >= -20.0 && value <= 20.0, "C18 attribute clamped to [-20, 20]");
         }
     }
+    // the LAST setter of each kind decides the stored value: exactly the argument clamped to the
+    // documented bounds (in-range arguments are stored unchanged) together with its flag
+    let mut last: [Option<Setter>; 9] = [None; 9];
+    for x in s {
+        last[x.which as usize] = Some(*x);
+    }
+    if let Some(x) = last[2] {
+        if !x.rate.is_nan() {
+            assert!(i.clock_rate == Some(x.rate.clamp(0.01, 100.0)), "C18 stored clock rate is the argument clamped to [0.01, 100]");
+        }
+    }
+    for (k, f) in [(3usize, i.ar), (4, i.cs), (5, i.hp), (6, i.od)] {
+        if let (Some(x), Some(m)) = (last[k], f) {
+            assert!(m.value == x.val.clamp(-20.0, 20.0) && m.with_mods == x.flag,
+                "C18 stored attribute is the argument clamped to [-20, 20] with its with_mods flag");
+        }
+    }
+    if let Some(x) = last[1] {
+        assert!(i.passed_objects == Some(x.n), "C18 stored passed_objects is the argument");
+    }
+    if let (Some(x), Some(v)) = (last[7], i.hardrock_offsets) {
+        assert!(v == x.flag, "C18 stored hardrock_offsets is the argument");
+    }
+    if let (Some(x), Some(v)) = (last[8], i.lazer) {
+        assert!(v == x.flag, "C18 stored lazer flag is the argument");
+    }
 }
 
 /// `mk` builds a fresh attribute-backed builder each time: `Performance: Clone/PartialEq` would
@@ -314,8 +340,11 @@ pub fn c18_inspect_roundtrip() {
         assert!(i.clock_rate == Some(rate.clamp(0.01, 100.0)), "C18 inspect shows clamped rate");
     }
     assert!(i.ar.is_some() == ar.is_some() && i.od.is_some() == od.is_some());
-    if let (Some(a), Some(b)) = (i.cs, cs) {
-        assert!(a.value == b.value.clamp(-20.0, 20.0) && a.with_mods == b.with_mods);
+    for (shown, given) in [(i.ar, ar), (i.cs, cs), (i.hp, hp), (i.od, od)] {
+        assert!(shown.is_some() == given.is_some(), "C18 inspect shows exactly the attributes that were set");
+        if let (Some(a), Some(b)) = (shown, given) {
+            assert!(a.value == b.value.clamp(-20.0, 20.0) && a.with_mods == b.with_mods, "C18 inspect shows the clamped attribute and its flag");
+        }
     }
 
     // an arbitrary InspectDifficulty (public fields, any values) converts to a Difficulty whose
@@ -334,6 +363,15 @@ pub fn c18_inspect_roundtrip() {
     let conv = raw.clone().into_difficulty();
     check_clamps(conv.clone(), &[]);
     let shown = conv.inspect();
+    for (a, b) in [(shown.ar, raw.ar), (shown.cs, raw.cs), (shown.hp, raw.hp), (shown.od, raw.od)] {
+        assert!(a.is_some() == b.is_some(), "C18 into_difficulty keeps which attributes are set");
+        if let (Some(a), Some(b)) = (a, b) {
+            assert!(a.value == b.value.clamp(-20.0, 20.0) && a.with_mods == b.with_mods, "C18 into_difficulty stores the clamped attribute and its flag");
+        }
+    }
+    if let Some(r) = raw.clock_rate {
+        assert!(shown.clock_rate == Some(r.clamp(0.01, 100.0)), "C18 into_difficulty stores the clamped clock rate");
+    }
     assert!(shown.passed_objects == raw.passed_objects && shown.lazer == raw.lazer);
     assert!(shown.hardrock_offsets == raw.hardrock_offsets && shown.mods == raw.mods);
 
